@@ -247,12 +247,15 @@ def registry(nxt='all', cfg='s1', shape=1, upd='run', data='bytes', cfg2=None):
         msg = arg if kind == 'encrypt' else 'result'          # the MAC always runs over the plaintext
         # C09: effect on the MAC input stream (the MAC always runs over the plaintext): the payload is appended, after the zero padding
         # that closes the associated data (A.2.3) and, when the MAC could not start earlier, after B_0, the length header and the parked data
+        steps = {}
         if cfg == 's2':
             stream = '%s == %s + %s' % (S, OS, msg)
         elif cfg == 's1':
             stream = '%s == %s + spec.aead2.zpad(len(%s)) + %s' % (S, OS, OS, msg)
         else:
             stream = '%s == %s + %s + b"".join(old(self._cache)) + spec.aead2.zpad(%s) + %s' % (S, B0, HDR, AEND, msg)
+            steps = {'r_stream': stream, 'a_end': 'len(%s) + len(%s) + len(b"".join(old(self._cache))) == %s' % (B0, HDR, AEND),
+                     'p_start': '%s + len(spec.aead2.zpad(%s)) == %s' % (AEND, AEND, PST)}
         reg.add(Contract(C + '.' + kind, params={arg: data, 'output': 'none'},
                          raises={'TypeError': ('iff', '"%s" not in self._next' % kind),
                                  'ValueError': ('iff', '"%s" in self._next and (%s or %s or %s)' % (kind, aad_short, too_long, beyond))},
@@ -267,6 +270,7 @@ def registry(nxt='all', cfg='s1', shape=1, upd='run', data='bytes', cfg2=None):
                                   'lens': 'self._assoc_len == (old(self._assoc_len) if old(self._assoc_len) is not None else old(self._cumul_assoc_len)) and '
                                           'self._msg_len == (old(self._msg_len) if old(self._msg_len) is not None else len(%s))' % arg,
                                   'phase': 'self._mac_status == 2', **INV},
+                         lemmas={'exit': steps},
                          modifies=NEXT_MOD(frame(['self._assoc_len', 'self._msg_len', 'self._cumul_msg_len', 'self._mac_status',
                                                   'self._cache', 'self._t', 'self._mac.g_fed', 'self._cipher.g_pos'], parked),
                                            eval(nxt_und if cfg in ('nn', 'dn') else nxt_decl)),
